@@ -84,7 +84,7 @@ Definition obs_of (ev : event) : list oevent :=
   | EvPrepared _ _ _ _ => []
   | EvFailed _ _ => []
   | EvSend e b h ks items =>
-      [OSend e b h (map (fun it => (match snd (fst it) with Some id => inr id | None => inl (fst (fst it)) end, snd it)) items)]
+      [OSend e b h (map (fun it => (match snd (fst it) with Some (id, _) => inr id | None => inl (fst (fst it)) end, snd it)) items)]
   | EvResult e r => [OResult e r]
   | EvPanic => [OPanic]
   end.
